@@ -234,6 +234,9 @@ def prog_C02(ctx):
     fsm_part(ctx, ['C02'], ['event_dkg_master_key'])
     res = generic(ctx, ['Dc4bcVerif.Props.C02', 'Dc4bcVerif.Props.C02Fsm', 'Dc4bcVerif.Props.C02Air', 'Dc4bcVerif.Props.AirDkgSrc', 'Dc4bcVerif.Props.C01'], 'algdiff', 'alg', ['C02'], ALG_TRUSTED, ALG_RULE, cov_from_stats=alg_cov)
     airdkg_part(ctx, res)
+    # the node's side of the last step: a key announcement posted by a registered participant in the name of one whose airgapped
+    # machine has not executed its last step (nodediff, nodew24.go w24HeldBackAnnouncement; monitor C02 ready_implies_share)
+    monitor_only(ctx, 'nodediff', ['C02'], 'node_layer_announcement_in_anothers_name')
 
 
 NODE_TRUSTED = ['correspondence nodediff: a real BaseNodeService (LevelDB state, file board, real repositories) inside a real ceremony is fed every message through ProcessMessage, plus structure-aware mutations (altered payload, broken/empty/foreign signatures, renamed senders, foreign participant ids, replays under other events/rounds, junk) and answers through ProcessOperation/ApproveParticipation incl. altered, unknown, request-only and duplicated results; the compiled Lean node model gets the same inputs and must reproduce outcome, posted messages and the canonical node state after every step',
